@@ -255,11 +255,40 @@ def task_L4(version):
     return chk.to_dict()
 
 
-HEADS = {
-    2: [],
-    3: ["CVSS:3.0", "CVSS:3.1", "CVSS:3.2", "CVSS:3", "CVSS:3.", "cvss:3.1", "CVSS:3.10", " CVSS:3.1", "CVSS:3.1 ", "", "CVSS:2.0", "CVSS:4.0", "CVSS:3,1", "CVSS:3.1\n", "AV:N", "CVSS:31", "XCVSS:3.1"],
-    4: ["CVSS:4.0", "CVSS:4.1", "CVSS:4", "CVSS:4.", "cvss:4.0", "CVSS:4.00", " CVSS:4.0", "CVSS:4.0 ", "", "CVSS:3.1", "CVSS:3.0", "CVSS:4,0", "CVSS:4.0\n", "AV:N", "CVSS:40", "XCVSS:4.0"],
+# near-miss prefixes: the legal heads, every string one edit (deletion, replacement, insertion over
+# EDIT_ALPHABET) away from a legal head, and a hand-written list of other plausible confusions
+EDIT_ALPHABET = list("0123456789") + [".", ",", ":", " ", "\n", "\t", "C", "c", "V", "v", "S", "s", "X", "-", "\u0661", "\uff10", "\u00b9"]
+_HAND = {
+    3: ["CVSS:3.2", "CVSS:3", "CVSS:3.", "cvss:3.1", "CVSS:3.10", " CVSS:3.1", "CVSS:3.1 ", "", "CVSS:2.0", "CVSS:4.0", "CVSS:3,1", "CVSS:3.1\n", "AV:N", "CVSS:31", "XCVSS:3.1", "CVSS:3.000001", "CVSS:3.1.0", "CVSS:03.1"],
+    4: ["CVSS:4.1", "CVSS:4", "CVSS:4.", "cvss:4.0", "CVSS:4.00", " CVSS:4.0", "CVSS:4.0 ", "", "CVSS:3.1", "CVSS:3.0", "CVSS:4,0", "CVSS:4.0\n", "AV:N", "CVSS:40", "XCVSS:4.0", "CVSS:4.000000", "CVSS:4.0.0", "CVSS:04.0"],
 }
+
+
+def one_edit(word):
+    out = set()
+    for i in range(len(word)):
+        out.add(word[:i] + word[i + 1:])
+        for ch in EDIT_ALPHABET:
+            out.add(word[:i] + ch + word[i + 1:])
+    for i in range(len(word) + 1):
+        for ch in EDIT_ALPHABET:
+            out.add(word[:i] + ch + word[i:])
+    return out
+
+
+def _heads(version, legal):
+    seen = list(legal)
+    for w in legal:
+        for x in sorted(one_edit(w)):
+            if x not in seen:
+                seen.append(x)
+    for x in _HAND[version]:
+        if x not in seen:
+            seen.append(x)
+    return seen
+
+
+HEADS = {2: [], 3: _heads(3, ["CVSS:3.0", "CVSS:3.1"]), 4: _heads(4, ["CVSS:4.0"])}
 LEGAL_HEADS = {3: {"CVSS:3.0": 0, "CVSS:3.1": 1}, 4: {"CVSS:4.0": None}}
 
 
